@@ -5,10 +5,10 @@ import lib, storelib as S, arithlib as A
 from lib import Result, model_call, run_sharded, e_fmt, Reader, RMODES, OMODES
 
 RULE = ('all code pairs for n_word<=4 (quick) / <=6 (thorough) with every signedness combination and n_frac in 0..n_word; boundary and random codes for n_word in {16,31,32,33,63,64,65,100,128}; '
-        'x scalar, and x holding arrays of 1..4 codes (element-wise); y is a scalar fixed-point object of the same word length (either signedness, any n_frac) or an integer mask on either side (also negative masks and masks wider than the word); operators ~ & | ^, the laws ~~x == x, '
+        'x scalar, and x holding arrays of 1..4 codes (element-wise); y is a scalar fixed-point object or (60% of the array cases with an object y) an array object of the same shape, or x a scalar object against an array y; y is otherwise a scalar fixed-point object of the same word length (either signedness, any n_frac) or an integer mask on either side (also negative masks and masks wider than the word); operators ~ & | ^, the laws ~~x == x, '
         '~x == -x - LSB (signed), De Morgan; malformed stream: operands of different word lengths must raise. The expected pattern is computed with Python integer bit operations on (code mod 2^n_word); compared also with the model. '
         'Non-trivial = both patterns are neither 0 nor all-ones; distinct by full input.')
-ASSUMPTIONS = ['the second operand is a scalar object or an integer mask (x & y with an ARRAY second operand raises TypeError in the implementation at every width: unsupported rather than wrong, not generated); x may hold an array of codes']
+ASSUMPTIONS = ['x and y may hold arrays of codes (the same shape, or one of them a scalar object); an integer mask is a single integer']
 WIDE = [16, 31, 32, 33, 63, 64, 65, 100, 128]
 
 def code_of_pattern(s, n, u):
@@ -84,24 +84,34 @@ def run_array_cases(cases, res, stratum):
         s, n, nf = c['x']; mask = (1 << n) - 1
         try:
             x = fx.Fxp(list(c['cxs']), s, n, nf, raw=True)
-            if c['y'] is not None:
+            if c.get('x0d'): x = A.mk(fx, np, s, n, nf, c['cxs'][0])              # (a scalar object against an array object: the result has the array's shape)
+            if c['y'] is not None and 'cys' in c:
+                sy, ny, nfy = c['y']; y = fx.Fxp(list(c['cys']), sy, ny, nfy, raw=True)      # y holds an array of codes too: paired element by element
+            elif c['y'] is not None:
                 sy, ny, nfy = c['y']; y = A.mk(fx, np, sy, ny, nfy, c['cy'])
             else: y = c['cy']
             got = {'&': x & y, '|': x | y, '^': x ^ y, '~': ~x}
+            if 'cys' in c:
+                dm = (lib.codes_of(~(x & y)), lib.codes_of((~x) | (~y)), lib.codes_of(y))
             obs = {k: (A.fmt_of(v), lib.codes_of(v), lib.status3(v)[:2]) for k, v in got.items()}
             obs['~~'] = lib.codes_of(~(~x)); obs['x_after'] = lib.codes_of(x)
         except Exception as e:
             res.fail(c, 'C13: a bitwise operator on an array of codes raised %s' % lib.exc_name(e), got=str(e)[:200]); continue
         uy = c['cy'] & mask; uxs = [cx & mask for cx in c['cxs']]
-        res.count(stratum, key=repr(c), nontrivial=any(u not in (0, mask) for u in uxs) and uy not in (0, mask), n=4 * len(uxs))
+        uys = [cy & mask for cy in c['cys']] if 'cys' in c else [uy] * len(uxs)
+        if c.get('x0d'): uxs = uxs[:1] * len(uys)
+        res.count(stratum, key=repr(c), nontrivial=any(u not in (0, mask) for u in uxs) and any(u not in (0, mask) for u in uys), n=4 * len(uxs))
         res.sample(c)
-        want = {'&': [u & uy for u in uxs], '|': [u | uy for u in uxs], '^': [u ^ uy for u in uxs], '~': [mask - u for u in uxs]}
+        want = {'&': [u & v for u, v in zip(uxs, uys)], '|': [u | v for u, v in zip(uxs, uys)], '^': [u ^ v for u, v in zip(uxs, uys)], '~': [mask - u for u in (uxs[:1] if c.get('x0d') else uxs)]}
         bad = False
         for k in ('&', '|', '^', '~'):
             f, codes, st = obs[k]; wc = [code_of_pattern(s, n, u) for u in want[k]]
             if f != (s, n, nf) or codes != wc or st != (False, False):
                 res.fail(c, 'C13: result of %s on an array is not, element by element, the bitwise pattern in x\'s format' % k, expected={'fmt': (s, n, nf), 'codes': wc}, got=(f, codes, st)); bad = True; break
         if bad: continue
+        if 'cys' in c and (dm[0] != dm[1] or dm[2] != list(c['cys'])):
+            res.fail(c, 'C13: De Morgan law violated on arrays (or the second operand was modified)', expected=dm[0], got=dm[1:]); continue
+        if c.get('x0d'): continue
         if obs['~~'] != list(c['cxs']) or obs['x_after'] != list(c['cxs']):
             res.fail(c, 'C13: ~~x differs from x on an array (or the operand was modified)', expected=c['cxs'], got=(obs['~~'], obs['x_after']))
 
@@ -145,6 +155,11 @@ def shard(shard, nshards, rng, tier, extra):
         if y is not None:
             ly, hy = S.fmt_bounds(y[0], n); cy = rng.choice([ly, hy, 0, rng.randint(ly, hy)])
         cases.append({'x': [s, n, rng.choice([0, 1, n // 2, n])], 'cxs': cxs, 'y': y, 'cy': cy})
+        if y is not None and rng.random() < 0.6:
+            # the second operand holds an array as well (same shape), or x is a scalar object and y an array
+            x0d = rng.random() < 0.25
+            cases[-1]['cys'] = [rng.choice([ly, hy, 0, rng.randint(ly, hy), rng.randint(ly, hy)]) for _k in range(len(cxs) if not x0d else rng.randint(1, 4))]
+            if x0d: cases[-1]['x0d'] = True; cases[-1]['cxs'] = cxs[:1]
     run_array_cases(cases, res, 'R:arrays-of-codes')
     cases = []
     for _ in range((300 if tier == 'quick' else 5000) // nshards):
